@@ -342,6 +342,12 @@ def _geometry(cfg):
     """every register spans the bus words its documented width needs (Mode, SetClr: 2 bits per pin; Input, Output: 1)"""
     h = maker(cfg)()
     bad = []
+    for k_, pin in enumerate(h.g.pins):
+        if (len(pin.i), len(pin.o), len(pin.oe)) != (1, 1, 1):
+            bad.append(f"pin {k_}: i/o/oe are {len(pin.i)}/{len(pin.o)}/{len(pin.oe)} bits wide, a pin is one bit")
+            break
+    if len(h.g.alt_mode) != cfg["pins"]:
+        bad.append(f"alt_mode is {len(h.g.alt_mode)} bits wide for {cfg['pins']} pins")
     for name, bits in (("Mode", 2 * cfg["pins"]), ("Input", cfg["pins"]), ("Output", cfg["pins"]), ("SetClr", 2 * cfg["pins"])):
         s_, e_ = h.regs[name]
         need = -(-bits // cfg["dw"])
